@@ -304,3 +304,46 @@ def r11_11_calendar_identity(ctx: Ctx) -> RuleResult:
     if n_cmp == 0:
         raise AnalysisError("no calendar comparison found in the package (type resolution broken?)")
     return rr
+
+
+@rule("C11")
+def r11_12_calendar_conversion_goes_through_the_day_number(ctx: Ctx) -> RuleResult:
+    """`with_calendar` keeps the physical day and changes the calendar: two calendar systems share year / month / day numbers only
+    if they are the same system, so the only sound conversion is via the day number (`days_since_epoch=`), or a delegation to the
+    `with_calendar` of a component.  A return that re-tags the packed year/month/day with the new calendar's ordinal (a "same
+    rules" shortcut) moves the date: Hebrew civil and scriptural share a calculator class and differ by months, the Hijri
+    variants by a day."""
+    rr = RuleResult("R11.12", "with_calendar converts through the day number or delegates to a component's with_calendar on every returning path (never re-tags the year/month/day fields)", min_instances=5)
+    M = ctx.M
+    for f in sorted(set(M.func_of_node.values()), key=lambda x: x.qual):
+        if isinstance(f.node, ast.Lambda) or f.cls is None or f.name != "with_calendar" or "/_compatibility/" in f.mod.rel:
+            continue
+        rr.inst()
+        assigned = {}
+        for n in own_nodes(f.node):
+            if isinstance(n, (ast.Assign, ast.AnnAssign)) and getattr(n, "value", None) is not None:
+                for t in [n.target] if isinstance(n, ast.AnnAssign) else n.targets:
+                    if isinstance(t, ast.Name):
+                        assigned.setdefault(t.id, []).append(n.value)
+        bad = None
+        n_ret = 0
+        for n in own_nodes(f.node):
+            if not (isinstance(n, ast.Return) and n.value is not None):
+                continue
+            n_ret += 1
+            texts = [unparse(n.value)]
+            for x in ast.walk(n.value):
+                if isinstance(x, ast.Name) and x.id in assigned:
+                    texts += [unparse(v) for v in assigned[x.id]]
+            t = " ".join(texts)
+            if "_with_calendar_ordinal" in t or ("year_month_day" in t and "days_since_epoch" not in t and ".with_calendar(" not in t):
+                bad = bad or (n, "re-tags the year / month / day fields with the new calendar")
+            elif "days_since_epoch" not in t and ".with_calendar(" not in t and "self" != t.strip():
+                bad = bad or (n, "neither passes the day number nor delegates to a component's with_calendar")
+        if bad is not None:
+            rr.fail(f.qual, f"`{unparse(bad[0])[:100]}` {bad[1]}: the same field numbers denote another day in another calendar system, so the value (and the instant of an OffsetDateTime built on it) moves", ctx.loc(f, bad[0]))
+        elif n_ret == 0:
+            rr.fail(f.qual, "no returning path found", ctx.loc(f))
+        else:
+            rr.ok({"fn": f.qual, "returns": n_ret})
+    return rr
